@@ -103,7 +103,7 @@ m = {
  'setup_cmd': './setup.sh',
  'hooks': {
    'guard': 'verif',
-   'enable': 'go build -tags verif (only daemon/ has tag-guarded hooks; all other instrumentation is generated at check time by engine/vinstr and mounted with go build -overlay, never touching /repo)',
+   'enable': 'go build -tags verif (only daemon/ has tag-guarded hooks; all other instrumentation is generated at check time by engine/vinstr and mounted with go build -overlay, never touching /repo; the shim packages the instrumented code imports are ordinary packages of /verif, verif/engine/shim/...)',
    'baseline_off_cmd': 'cd /repo && go test -vet=off -count=1 -timeout 25m ./...   # no -tags: the guard verif is off, verifPause is an empty stub',
    'source_commits': ['6559d687863e9452a7303ad3d2f79e04feccfb72'],
    'add_only': True,
